@@ -82,6 +82,26 @@ impl PackedGroupKeys {
         Ok(plan)
     }
 
+    /// Only scans, filters, aliases and inner/semi/anti joins below: column
+    /// values and null-freeness are those of the base tables.
+    fn passes_base_columns_through(plan: &LogicalPlan) -> bool {
+        use crate::planner::JoinType;
+        match plan {
+            LogicalPlan::Scan(_) => true,
+            LogicalPlan::Filter(n) => Self::passes_base_columns_through(&n.input),
+            LogicalPlan::SubqueryAlias(n) => Self::passes_base_columns_through(&n.input),
+            LogicalPlan::Join(j) => match j.join_type {
+                JoinType::Inner | JoinType::Cross => {
+                    Self::passes_base_columns_through(&j.left)
+                        && Self::passes_base_columns_through(&j.right)
+                }
+                JoinType::Semi | JoinType::Anti => Self::passes_base_columns_through(&j.left),
+                _ => false,
+            },
+            _ => false,
+        }
+    }
+
     fn try_pack(&self, agg: &AggregateNode) -> Option<LogicalPlan> {
         if agg.group_by.len() != 2 || self.table_stats.is_empty() {
             return None;
@@ -94,6 +114,16 @@ impl PackedGroupKeys {
                 _ => None,
             })
             .collect::<Option<Vec<_>>>()?;
+
+        // Footer statistics describe BASE TABLE columns. They only carry over
+        // to the aggregate's input when every node in between passes the
+        // columns through unchanged and cannot NULL-extend them: a Project
+        // may compute a column of the same name, an outer join turns a
+        // null-free column into a nullable one (and the packed NULL key then
+        // merges distinct groups).
+        if !Self::passes_base_columns_through(&agg.input) {
+            return None;
+        }
 
         // Output field types must be plain ints (also guards non-column
         // schemas); nullable keys are fine — NULLs in either column make the
